@@ -47,7 +47,10 @@ def gen_history(rng, nops, mix):
         if c == "update":
             op = ug.op()
             ep = rng.choice(UPDATE_EPS)
-            steps.append(step("update", ep, G.pr_update(op), {"cls": "update", "op": op, "counts": ep in ("update", "db")}))
+            text = G.pr_update(op)
+            if rng.random() < 0.12:
+                text = G.dollar(text)
+            steps.append(step("update", ep, text, {"cls": "update", "op": op, "counts": ep in ("update", "db")}))
         elif c == "reject":
             text, why = ug.rejected()
             ep = rng.choice(["update", "db", "handle", "volcano", "http-update"])
@@ -55,7 +58,10 @@ def gen_history(rng, nops, mix):
         elif c == "select":
             g = G.Gen(rng, None, ug.pool)
             q = g.select(rng.choice([1, 2]))
-            steps.append(step("query", rng.choice(QUERY_EPS), G.pr_select(q), {"cls": "select"}))
+            text = G.pr_select(q)
+            if rng.random() < 0.12:
+                text = G.dollar(text)
+            steps.append(step("query", rng.choice(QUERY_EPS), text, {"cls": "select"}))
         elif c == "readonly":
             if rng.random() < 0.3:
                 text = rng.choice(["INSERT { <http://e/i1> <http://e/p1> <http://e/i9> . }", "DELETE { <http://e/i1> <http://e/p1> <http://e/i2> . }",
